@@ -2,14 +2,19 @@ import FV.Drv.Die
 /-
   Line-protocol driver for the die model (C01): `<mode> <op> <args…>` per line on stdin, one reply line on
   stdout.  Mode `F` runs the model at `Float` (`math.sqrt` = `Float.sqrt`, both correctly rounded), mode `Q`
-  at `Rat` (the square root is supplied by the caller).
+  at `Rat` (the square root is supplied by the caller; the document ops use the 30-digit `ratSqrt`).
+  The `while` loops of `split_rectangles` get a fixed fuel at `Float` and the provably sufficient `fuelQ` at `Rat`.
 -/
 open FV FV.Drv
 
 def handle (line : String) : String :=
   match splitReq line with
-  | some ("F", op, args) => (dieOp (α := Float) (some Float.sqrt) op args).getD "bad-op"
-  | some ("Q", op, args) => (dieOp (α := Rat) none op args).getD "bad-op"
+  | some ("F", op, args) =>
+      ((dieOp (α := Float) (some Float.sqrt) op args).orElse fun _ =>
+        docOp (α := Float) Float.sqrt 1e-12 (fun _ _ _ => 4000000) op args).getD "bad-op"
+  | some ("Q", op, args) =>
+      ((dieOp (α := Rat) none op args).orElse fun _ =>
+        docOp (α := Rat) ratSqrt (mkRat 1 (10 ^ 12)) FV.DieObj.fuelQ op args).getD "bad-op"
   | _ => "bad-op"
 
 def main : IO Unit := mainLoop handle
